@@ -75,13 +75,13 @@ Example C34_nonvacuous :
   methods cli = ["inside_outside"; "maximization"; "variational_gamma"] /\
   List.length (filter (api_option cli) (c_date_options cli)) = 11%nat /\
   List.length (filter (api_option cli) (c_preprocess_options cli)) = 3%nat /\
-  cli_main cli ["preprocess"; "in.trees"; "out.trees"; "--erase-flanks"; "False"; "--split-disjoint"; "no"]
-    = Call "preprocess_ts" (VStr "in.trees") (VStr "out.trees")
-        [("minimum_gap", VIntOf "1000000"); ("erase_flanks", VBool false); ("split_disjoint", VBool false)] /\
-  cli_main cli ["date"; "in.trees"; "out.trees"; "-m"; "1e-8"; "--method"; "maximization"; "-n"; "100"; "-m"; "2e-8"]
-    = Call "date" (VStr "in.trees") (VStr "out.trees")
-        [("mutation_rate", VFloatOf "2e-8"); ("population_size", VFloatOf "100"); ("recombination_rate", VNone);
-         ("method", VStr "maximization"); ("min_branch_length", VFloatOf "1e-08"); ("eps", VFloatOf "1e-08");
-         ("progress", VBool false); ("probability_space", VNone); ("num_threads", VNone)] /\
+  (let r := cli_main cli ["preprocess"; "in.trees"; "out.trees"; "--erase-flanks"; "False"; "--split-disjoint"; "no"] in
+   kw_is r "preprocess_ts" "erase_flanks" (VBool false) = true /\
+   kw_is r "preprocess_ts" "split_disjoint" (VBool false) = true) /\
+  (let r := cli_main cli ["date"; "in.trees"; "out.trees"; "-m"; "1e-8"; "--method"; "maximization"; "-n"; "100"; "-m"; "2e-8"] in
+   kw_is r "date" "mutation_rate" (VFloatOf "2e-8") = true /\
+   kw_is r "date" "population_size" (VFloatOf "100") = true /\
+   kw_is r "date" "method" (VStr "maximization") = true /\
+   kw_is r "date" "probability_space" VNone = true) /\
   cli_main cli ["date"; "in.trees"; "out.trees"; "-m"; "1e-8"; "-n"; "100"] = ExitError.
 Proof. exact example_nonvacuous. Qed.
